@@ -133,10 +133,24 @@ def _inexact(a, b):
     return False
 
 
+def _inst_us(m, p):
+    """Microseconds since 2000-01-01T00Z of a projected point (used ONLY to narrow the class of a recorded finding)."""
+    n = {"cal": lambda: R.daynum(m, p["y"], p["a"], p["b"]), "ord": lambda: R.year_start(m, p["y"]) + p["a"] - 1,
+         "week": lambda: R.from_week(m, p["y"], p["a"], p["b"])}[p["rep"]]()
+    return ((n * DAY + p["sod"] - (p["zh"] * 3600 + p["zm"] * 60)) * 1000000) + p["us"]
+
+
+def _noise_pair(m, a, b):
+    """The recorded finding is float noise in re-zoning: it can only flip verdicts between operands that denote the SAME
+    instant (to within a microsecond).  A wrong verdict between instants further apart is not that finding."""
+    return _inexact(a, b) and abs(_inst_us(m, a) - _inst_us(m, b)) <= 1
+
+
 def classify(case, rej, events):
     ev = rej["event"]
-    if rej["op"] == "Cmp" and _inexact(ev["a"], ev["b"]):
+    m = MEANING[case["mode"]]
+    if rej["op"] == "Cmp" and _noise_pair(m, ev["a"], ev["b"]):
         return "decimal-hour-form-rezoned-by-non-quarter-hour"
-    if rej["op"] == "Pool" and any(_inexact(a, b) for a in ev["pool"] for b in ev["pool"]):
+    if rej["op"] == "Pool" and any(_noise_pair(m, a, b) for a in ev["pool"] for b in ev["pool"] if a is not b):
         return "decimal-hour-form-rezoned-by-non-quarter-hour"
     return None
